@@ -1354,3 +1354,66 @@ pub proof fn lemma_muxed_file<W: Stream>(m0: Mp4Writer<W>, out: Seq<u8>, moov: M
     }
     lemma_file_roundtrip(x, start, m0.mdat_pos as int, pn, f, moov, moov2);
 }
+
+/// what add_track establishes for a track writer and no later step changes: an AVC or AAC sample description as
+/// Mp4TrackWriter::new builds it (the AAC one up to bufferSizeDB, which write_end sets) and a canonical ISO-639 language code
+pub open spec fn tw_static_muxed(w: Mp4TrackWriter) -> bool {
+    &&& stsd_muxed_avc(tw_stbl(w).stsd) || stsd_muxed_aac(stsd_nobuf(tw_stbl(w).stsd))
+    &&& w.trak.mdia.mdhd.language@ == lang_string_spec(lang_code_spec(w.trak.mdia.mdhd.language@))
+}
+pub proof fn lemma_trak_muxed_of_track(t: TrakBox, w: Mp4TrackWriter, pos: u64)
+    requires trak_of_track(t, w, pos), trak_wire(t), tw_static_muxed(w)
+    ensures trak_muxed(t), trak_exact(t)
+{
+    let a = t.mdia.minf.stbl.stsd; let b0 = tw_stbl(w).stsd;
+    assert(stsd_nobuf(a) == stsd_nobuf(b0));
+    if stsd_muxed_avc(b0) {
+        assert(stsd_nobuf(a).avc1 == a.avc1 && stsd_nobuf(b0).avc1 == b0.avc1);
+        assert(stsd_nobuf(a).mp4a is Some <==> a.mp4a is Some);
+        assert(stsd_nobuf(b0).mp4a is Some <==> b0.mp4a is Some);
+        assert(stsd_muxed_avc(a));
+    } else {
+        let na = stsd_nobuf(a);
+        assert(stsd_muxed_aac(na));
+        assert(na.mp4a is Some <==> a.mp4a is Some);
+        assert(a.mp4a is Some && a.avc1 is None && a.hev1 is None && a.vp09 is None && a.tx3g is None);
+        let m = a.mp4a->Some_0; let nm = na.mp4a->Some_0;
+        assert(nm == mp4a_nobuf(m));
+        assert(mp4a_wire(m));
+        assert(mp4a_encodable(nm));
+        if m.esds is Some {
+            let e = m.esds->Some_0; let ne = nm.esds->Some_0;
+            assert(ne == esds_nobuf(e));
+            assert(esds_encodable(ne));
+            assert(esds_wire(e));
+            assert(esds_encodable(e));
+        }
+        assert(mp4a_encodable(m));
+        assert(stsd_muxed_aac(a));
+    }
+}
+/// the final movie box of a muxer whose tracks carried tw_static_muxed is one that lemma_muxed_file speaks about
+pub proof fn lemma_moov_muxed_of_final<W: Stream>(m0: Mp4Writer<W>, out: Seq<u8>, moov: MoovBox)
+    requires mw_final(m0, out, moov), forall|i: int| 0 <= i < m0.tracks@.len() ==> tw_static_muxed(#[trigger] m0.tracks@[i])
+    ensures moov_muxed(moov), moov_exact(moov)
+{
+    let n = m0.tracks@.len() as int; let p0 = m0.writer.pos() as int;
+    assert forall|i: int| 0 <= i < moov.traks@.len() implies trak_muxed(#[trigger] moov.traks@[i]) && trak_exact(moov.traks@[i]) by {
+        assert(trak_wire(moov.traks@[i]));
+        assert(tw_static_muxed(m0.tracks@[i]));
+        lemma_trak_muxed_of_track(moov.traks@[i], m0.tracks@[i], (p0 + pending_sum(m0.tracks@, i)) as u64);
+    }
+}
+
+/// Mp4TrackWriter::new ([C14.tw.new.avc] / [C14.tw.new.aac]: bufferSizeDB is 0 there) establishes the sample-description part
+pub proof fn lemma_static_of_new(sd: StsdBox)
+    requires stsd_muxed_avc(sd) || (stsd_muxed_aac(sd) && (sd.mp4a->Some_0.esds matches Some(e) ==> e.es_desc.dec_config.buffer_size_db == 0))
+    ensures stsd_muxed_avc(sd) || stsd_muxed_aac(stsd_nobuf(sd))
+{
+    if !stsd_muxed_avc(sd) {
+        let m = sd.mp4a->Some_0;
+        if m.esds is Some { assert(esds_nobuf(m.esds->Some_0) == m.esds->Some_0); }
+        assert(mp4a_nobuf(m) == m);
+        assert(stsd_nobuf(sd) == sd);
+    }
+}
